@@ -654,6 +654,13 @@ func (f *Frame) execBuiltin(b *ssa.Builtin, c *ssa.CallCommon, args []Val, st *S
 						oldV := Select(ea, App("s_arr", SInt, args[0].T))
 						u.assume(st, Term{fmt.Sprintf("(forall ((%s Int)) (! (=> (<= (+ %s %d) %s) (= (select %s %s) (select %s %s))) :pattern ((select %s %s))))", qp.S, qp.S, w, dOff.S, fresh.S, qp.S, oldV.S, qp.S, fresh.S, qp.S), SBool})
 					}
+					// a source of exactly the field's width copied into a destination at least that long: the field decoded
+					// at the start of the destination equals the field decoded at the start of the source
+					if w, okw := map[string]int64{"Enc.BE16": 2, "Enc.BE32": 4, "Enc.BE64": 8, "Enc.LE32": 4, "Enc.LE64": 8}[cls]; okw {
+						srcV := Select(ea, App("s_arr", SInt, args[1].T))
+						cond := And(Eq(App("s_len", SInt, args[1].T), IntLit(w)), App(">=", SBool, App("s_len", SInt, args[0].T), IntLit(w)))
+						u.assume(st, Implies(cond, Eq(Select(fresh, App("s_off", SInt, args[0].T)), Select(srcV, App("s_off", SInt, args[1].T)))))
+					}
 					inner := Ite(whole, Select(ea, App("s_arr", SInt, args[1].T)), fresh)
 					u.heapSet(st, cls, u.defs.Define("H_"+cls, Store(ea, App("s_arr", SInt, args[0].T), inner)))
 				}
